@@ -235,7 +235,10 @@ func (c *FCtx) globalVal(st *State, v *types.Var) Val {
 	if at, ok := t.Underlying().(*types.Array); ok {
 		if isString(at.Elem()) {
 			// table of strings: abstract (Array Int Str); facts come from the spec prelude (wordlist table facts)
-			c.note("global table " + v.Pkg().Name() + "." + v.Name() + " modelled as an abstract array of strings")
+			c.note("global table " + v.Pkg().Name() + "." + v.Name() + " modelled as an abstract array of strings; its facts (4096 pairwise distinct, non-empty, blank-free words) are decided exhaustively by the table back end")
+			if v.Pkg().Name() == "qrl" && v.Name() == "WordList" {
+				return AV{Sym("wordlist", SArr("Str")), t}
+			}
 			return AV{Sym(name, SArr("Str")), t}
 		}
 		arr := Sym(name, c.sortOf(t))
@@ -480,7 +483,33 @@ func (c *FCtx) stringConst(st *State, s string, t types.Type) Val {
 	}
 	cell := c.newCell(st, MV{arr, types.Typ[types.Uint8]})
 	n := Num(int64(len(s)))
-	return LV{Cell: cell, Off: Num(0), Len: n, Cap: n, Elem: types.Typ[types.Uint8], IsNil: False(), Str: true, Typ: t}
+	var abs *Term
+	switch s {
+	case "":
+		abs = Sym("str_empty", "Str")
+	case " ":
+		abs = Sym("str_space", "Str")
+	}
+	return LV{Cell: cell, Off: Num(0), Len: n, Cap: n, Elem: types.Typ[types.Uint8], IsNil: False(), Str: true, Typ: t, Abs: abs}
+}
+
+// strOf: a Go string value as one abstract Str term.
+func (c *FCtx) strOf(st *State, v Val) *Term {
+	switch x := v.(type) {
+	case LV:
+		if x.Abs != nil {
+			return x.Abs
+		}
+		return App("strbytes", "Str", subBytes(c.memTerm(st, x), x.Off, x.Len), x.Len)
+	case SV:
+		if x.T.S == "Str" {
+			return x.T
+		}
+	case TXV:
+		return x.T
+	}
+	fail("value of kind %T is not a string", v)
+	return nil
 }
 
 func (c *FCtx) eval(st *State, e ast.Expr) Val {
